@@ -438,7 +438,7 @@ func engineOracles(c *Ctx, ec *eCase, recs []reqRec) {
 			}
 		}
 		// ---- C06 / C20: while TERMINATE is set nothing runs
-		if prev != nil && pers && flagBit(prev.flags, 6) && !refusedInput(in) && !(ec.roe && len(in) == 0) {
+		if prev != nil && (pers || ec.mode == "ws") && flagBit(prev.flags, 6) && !refusedInput(in) && !(ec.roe && len(in) == 0) {
 			ran := len(r.calls) > 0 || r.cont || strings.Join(prev.path, "/") != strings.Join(r.path, "/") || prev.idx != r.idx
 			if r.state != "nostate" && len(r.flags) > 0 && !flagBit(r.flags, 6) {
 				// only client code may lift the block: the stored flag outlives the blocked request
